@@ -53,8 +53,8 @@ fn alpha(name: &str) -> Vec<MOp> {
 
 fn spaces(tier: Tier) -> Vec<(&'static str, u32)> {
     match tier {
-        Tier::Quick => vec![("MICRO", 2), ("MICRO", 3), ("SHARE", 2), ("CORE", 2), ("MICRO", 4), ("SHARE", 3), ("SAME", 2), ("SAME", 3), ("SELFX", 2), ("SELFX", 3), ("QSYM", 4), ("CORE", 3), ("MICRO", 5)],
-        Tier::Thorough => vec![("MICRO", 3), ("SHARE", 2), ("CORE", 2), ("MICRO", 4), ("SHARE", 3), ("SAME", 2), ("SAME", 3), ("SELFX", 2), ("SELFX", 3), ("QSYM", 4), ("CORE", 3), ("MICRO", 5), ("SHARE", 4), ("SAME", 4), ("SELFX", 4), ("MICRO", 6), ("CORE", 4)],
+        Tier::Quick => vec![("MICRO", 2), ("MICRO", 3), ("SHARE", 2), ("CORE", 2), ("MICRO", 4), ("SHARE", 3), ("SAME", 2), ("SAME", 3), ("SELFX", 2), ("SELFX", 3), ("QSYM", 4), ("CHAIN", 4), ("CORE", 3)],
+        Tier::Thorough => vec![("MICRO", 3), ("SHARE", 2), ("CORE", 2), ("MICRO", 4), ("SHARE", 3), ("SAME", 2), ("SAME", 3), ("SELFX", 2), ("SELFX", 3), ("QSYM", 4), ("CHAIN", 4), ("CHAIN", 5), ("CORE", 3), ("MICRO", 5), ("SHARE", 4), ("SAME", 4), ("SELFX", 4), ("MICRO", 6), ("CORE", 4)],
     }
 }
 
@@ -75,7 +75,78 @@ fn prog(eg: &EGraph<Sym>) -> (usize, usize, usize, usize) {
     (p.number_of_classes, p.number_of_live_classes, p.sum_of_slots, p.sum_of_symmetries)
 }
 
-fn run(ops: &[MOp]) -> (Vec<Fail>, u64, u64, Vec<u64>, u64) {
+/// eq over all pairs of handles (false when the query panics)
+fn final_matrix(eg: &EGraph<Sym>, handles: &[AppliedId]) -> Vec<bool> {
+    let mut m = Vec::new();
+    for i in 0..handles.len() {
+        for j in (i + 1)..handles.len() {
+            m.push(matches!(catch(|| eg.eq(&handles[i], &handles[j])), Ok(true)));
+        }
+    }
+    m
+}
+
+/// The same history WITHOUT any query between the operations (queries canonicalise handles and thereby compress the
+/// union-find: long chains only exist while nobody looks).  Only at the end: every handle is usable and the equalities
+/// among the handles are the ones the monitored run ended with.
+fn run_lazy(ops: &[MOp], expect: &[bool]) -> Vec<Fail> {
+    let nm = Naming::Numeric;
+    let mut eg = EGraph::<Sym>::default();
+    let mut rec: Vec<(T, AppliedId)> = Vec::new();
+    let mut handles: Vec<AppliedId> = Vec::new();
+    let mut fails: Vec<Fail> = Vec::new();
+    let seq = ops.iter().map(|o| o.show()).collect::<Vec<_>>().join(" ; ");
+    for op in ops {
+        let before_handles = rec.len();
+        let r = catch(|| match op {
+            MOp::H(o) => apply_op(&mut eg, o, nm, &mut rec),
+            MOp::Rw(i) => {
+                let rules = mk_rules(*i);
+                apply_rewrites(&mut eg, &rules);
+            }
+        });
+        if r.is_err() {
+            return fails; // the monitored run reports panics
+        }
+        for (_, a) in &rec[before_handles..] {
+            handles.push(a.clone());
+        }
+        for i in eg.ids() {
+            let a = eg.mk_identity_applied_id(i);
+            if !handles.contains(&a) && handles.len() < 40 {
+                handles.push(a);
+            }
+        }
+    }
+    for h in &handles {
+        match catch(|| {
+            let f = eg.find_applied_id(h);
+            let ff = eg.find_applied_id(&f);
+            (f, ff)
+        }) {
+            Err(site) => fails.push(("handle-unusable".into(), format!("find on an old handle panicked: {site}"), format!("{h:?} at the end of the unobserved run of [{seq}]"))),
+            Ok((f, ff)) => {
+                if std::env::var("MC_SHOW_PANICS").is_ok() {
+                    eprintln!("lazy: {h:?} -> {f:?} -> {ff:?} alive {}", eg.is_alive(f.id));
+                }
+                if f != ff {
+                    fails.push(("handle-unusable".into(), "find is not idempotent on an old handle (unobserved run)".into(), format!("{h:?}: {f:?} vs {ff:?} at the end of [{seq}]")));
+                }
+                if !eg.is_alive(f.id) {
+                    fails.push(("handle-unusable".into(), "canonical form of an old handle is a dead class (unobserved run)".into(), format!("{h:?} -> {f:?} at the end of [{seq}]")));
+                }
+            }
+        }
+    }
+    let got = final_matrix(&eg, &handles);
+    if got.len() == expect.len() && got != expect {
+        let k = got.iter().zip(expect.iter()).position(|(a, b)| a != b).unwrap();
+        fails.push(("equality-lost".into(), "the equalities among the handles differ between the monitored and the unobserved run of the same history".into(), format!("pair #{k}: unobserved {} vs monitored {} at the end of [{seq}]", got[k], expect[k])));
+    }
+    fails
+}
+
+fn run(ops: &[MOp]) -> (Vec<Fail>, u64, u64, Vec<u64>, u64, Vec<bool>) {
     let nm = Naming::Numeric;
     let mut eg = EGraph::<Sym>::default();
     let mut rec: Vec<(T, AppliedId)> = Vec::new();
@@ -86,6 +157,8 @@ fn run(ops: &[MOp]) -> (Vec<Fail>, u64, u64, Vec<u64>, u64) {
     // recorded facts
     let mut handles: Vec<AppliedId> = Vec::new();
     let mut slotsets: Vec<BTreeSet<Slot>> = Vec::new();
+    // EGraph::slots(id) of the class id each handle was issued for (the id may have been merged away since)
+    let mut class_slotsets: Vec<BTreeSet<Slot>> = Vec::new();
     let mut equal_pairs: BTreeSet<(usize, usize, bool)> = BTreeSet::new(); // (i, j, swapped-first-two-slots-of-j)
     let mut last = prog(&eg);
     let seq = ops.iter().map(|o| o.show()).collect::<Vec<_>>().join(" ; ");
@@ -108,7 +181,7 @@ fn run(ops: &[MOp]) -> (Vec<Fail>, u64, u64, Vec<u64>, u64) {
         });
         if let Err(site) = r {
             fails.push(("panic".into(), format!("operation panicked: {site}"), format!("step {step} ({}) of [{seq}]", op.show())));
-            return (fails, evals, goals, fps, step as u64);
+            return (fails, evals, goals, fps, step as u64, Vec::new());
         }
         // new handles: returned invocations + identity invocations of all live classes
         for (_, a) in &rec[before_handles..] {
@@ -177,6 +250,21 @@ fn run(ops: &[MOp]) -> (Vec<Fail>, u64, u64, Vec<u64>, u64) {
                     if f.id != h.id {
                         goals |= 4;
                     }
+                    // the parameter set reported for the handle's own class id only shrinks, also after the id was merged away
+                    match catch(|| eg.slots(h.id)) {
+                        Err(site) => fails.push(("handle-unusable".into(), format!("EGraph::slots on the id of an old handle panicked: {site}"), format!("{h:?} after step {step} of [{seq}]"))),
+                        Ok(cs) => {
+                            let cs: BTreeSet<Slot> = cs.iter().copied().collect();
+                            if k < class_slotsets.len() {
+                                if !cs.is_subset(&class_slotsets[k]) {
+                                    fails.push(("slots-grew".into(), "EGraph::slots of a class id is not a subset of what it was".into(), format!("{:?}: {:?} -> {cs:?} after step {step} of [{seq}]", h.id, class_slotsets[k])));
+                                }
+                                class_slotsets[k] = cs;
+                            } else {
+                                class_slotsets.push(cs);
+                            }
+                        }
+                    }
                     let s: BTreeSet<Slot> = f.slots().iter().copied().collect();
                     if k < slotsets.len() {
                         if !s.is_subset(&slotsets[k]) {
@@ -231,7 +319,8 @@ fn run(ops: &[MOp]) -> (Vec<Fail>, u64, u64, Vec<u64>, u64) {
         }
         fps.push(fnv_str(&format!("{now:?}|{}|{}", eg.total_number_of_nodes(), equal_pairs.len())));
     }
-    (fails, evals, goals, fps, ops.len() as u64)
+    let fm = final_matrix(&eg, &handles);
+    (fails, evals, goals, fps, ops.len() as u64, fm)
 }
 
 impl Prop for MonoProp {
@@ -251,7 +340,7 @@ impl Prop for MonoProp {
         vec!["class_merged", "slot_became_redundant", "handle_of_dead_class_used", "handle_slot_set_shrank", "equal_pair_recorded", "symmetric_pair_recorded"]
     }
     fn rule(&self) -> String {
-        "Every sequence (ordered) of the stated length over union/insert operations of the alphabet plus four rewrite-iteration operations (b-comm, u-elim, f-comm+u-intro, repeated-slot patterns, via apply_rewrites) is executed step by step in one e-graph. After EVERY step the monitor re-checks everything recorded at earlier steps: every invocation ever returned (and the identity invocation of every class that was ever live) can be canonicalised idempotently, is equal to itself, canonicalises to a live class, can be extracted from (and the extracted term looks up to it), its slot set only shrinks; every pair that once compared equal (also up to swapping two slots) still does; the ProgressMeasure moves lexicographically in the documented direction. Non-trivial = step count of executions that completed.".into()
+        "Every sequence (ordered) of the stated length over union/insert operations of the alphabet plus four rewrite-iteration operations (b-comm, u-elim, f-comm+u-intro, repeated-slot patterns, via apply_rewrites) is executed step by step in one e-graph. After EVERY step the monitor re-checks everything recorded at earlier steps: every invocation ever returned (and the identity invocation of every class that was ever live) can be canonicalised idempotently, is equal to itself, canonicalises to a live class, can be extracted from (and the extracted term looks up to it), its slot set only shrinks; every pair that once compared equal (also up to swapping two slots) still does; the ProgressMeasure moves lexicographically in the documented direction. The same history is then executed a second time WITHOUT any query between the operations (queries compress the union-find): at the end every handle must canonicalise idempotently to a live class and the equalities among all handles must be those of the monitored run. Non-trivial = step count of executions that completed.".into()
     }
     fn assumptions(&self) -> Vec<String> {
         vec!["at most 40 handles are tracked per execution".into()]
@@ -262,13 +351,28 @@ impl Prop for MonoProp {
     }
     fn exec(&self, tier: Tier, _cfg: &str, seg: usize, idx: u64) -> Exec {
         let (a, d) = spaces(tier)[seg];
-        let ops = decode(&alpha(a), d, idx);
+        let mut ops = decode(&alpha(a), d, idx);
+        if a == "CHAIN" {
+            let mut pre: Vec<MOp> = chain_prefix().into_iter().map(MOp::H).collect();
+            pre.extend(ops);
+            ops = pre;
+        }
         let mut out = Exec::default();
         out.traces = 1;
         out.transitions = ops.len() as u64;
         let ops2 = ops.clone();
         let opsv: Vec<String> = ops.iter().map(|o| o.show()).collect();
-        match fresh_thread(move || run(&ops2)) {
+        let ops3 = ops.clone();
+        match fresh_thread(move || {
+            let mut r = run(&ops2);
+            if r.0.is_empty() && r.4 as usize == ops2.len() {
+                let fm = r.5.clone();
+                let lazy = std::thread::spawn(move || run_lazy(&ops3, &fm)).join().unwrap_or_default();
+                r.0.extend(lazy);
+                r.1 += 1;
+            }
+            (r.0, r.1, r.2, r.3, r.4)
+        }) {
             Err(site) => out.fail("panic", format!("harness-thread: {site}"), opsv.join(" ; "), &opsv),
             Ok((fails, evals, goals, fps, steps)) => {
                 out.evaluations = evals;
